@@ -85,6 +85,7 @@ fn invalid_path(rng: &mut Rng, tree: &Node, valid: &[String], order: &[usize]) -
 }
 
 pub fn run_case(ctx: &mut Ctx, case: &Value) {
+    crate::real::set_current(case);
     ctx.report.evaluations += 1;
     let tree = Node::from_wire(&case["tree"]);
     let marks = tree.marks();
